@@ -292,7 +292,15 @@ func (ix *Index) ReceiveBlob(ctx context.Context, blobRef blob.Ref, source io.Re
 
 	// TODO(bradfitz): this removeAllMissingEdges need not hold ix.Lock
 	// and could be done in the background.
-	ix.removeAllMissingEdges(blobRef)
+	//
+	// Only forget what blobRef was waiting for once it is fully indexed. A
+	// delete claim whose target is not indexed yet is committed without the
+	// "|indexed" marker, and the missing row that populateDeleteClaim just
+	// wrote is what tells a restarted index to reindex it when the target
+	// arrives.
+	if strings.HasSuffix(mm.kv["have:"+blobRef.String()], "|indexed") {
+		ix.removeAllMissingEdges(blobRef)
+	}
 
 	// TODO(bradfitz): log levels? These are generally noisy
 	// (especially in tests, like search/handler_test), but I
